@@ -481,6 +481,16 @@ def generate(rng, tier):
         m.status[os.path.join(rd, "im_y.rs")] = "E"
         m.status[os.path.join(rd, "im_y", "im_w.rs")] = "X"
         fault = {"kind": "inline-missing", "target": os.path.join(rd, "im_y", "im_z", "im_w.rs"), "decl_file": os.path.join(rd, "im_y.rs"), "name": "im_w"}
+    elif lane == "fault" and root_status == "E" and "stemdir" not in feats and rng.chance(12):
+        # a default module file with a cfg_attr(path) candidate next to it, briefly absent: found by the lookup, gone
+        # when it is opened (an editor replacing it), back a moment later
+        rd = os.path.dirname(root)
+        m.files[os.path.join(rd, "bl_m.rs")] = body()
+        m.files[os.path.join(rd, "bl_alt.rs")] = body()
+        m.files[root] = insert_decls(m.files[root], '#[cfg_attr(feature = "bl", path = "bl_alt.rs")]\nmod bl_m;\n')
+        m.status[os.path.join(rd, "bl_m.rs")] = "D"
+        m.status[os.path.join(rd, "bl_alt.rs")] = "E"
+        fault = {"kind": "blink", "target": os.path.join(rd, "bl_m.rs"), "decl_file": root, "name": "bl_m"}
     elif lane == "fault":
         decls_for_fault = [d for d in decls_for_fault if m.status.get(d[2]) == "E" and m.status.get(d[0]) in ("E",) and d[0] not in tags and d[2] not in tags]
         if decls_for_fault:
@@ -537,7 +547,23 @@ def execute(case):
         if lane == "fault":
             f = case["fault"]
             t = f["target"]
-            if f["kind"] == "inline-missing":
+            if f["kind"] == "blink":
+                # a fault-free run tells how often the file is looked at before it is opened, and what its
+                # formatted text is
+                sc.fresh_world(world)
+                r0 = core.run_inv(sc, {"argv": [root], "cwd": ".", "hashseed": case["hashseed"]})
+                v.account(r0, nontrivial=False)
+                tn = os.path.normpath(t)
+                evs = [e for e in r0.events if isinstance(e.path, str) and os.path.normpath(e.path) == tn]
+                nstat = 0
+                for e in evs:
+                    if e.op == "open":
+                        break
+                    if e.op == "stat":
+                        nstat += 1
+                blink_fmt = core.read_rel(sc.root, t)
+                plan = ["* open 1 %s errno 2" % tn, "* stat %d %s errno 2" % (nstat + 1, tn)]
+            elif f["kind"] == "inline-missing":
                 pass  # the world is built that way
             elif f["kind"] == "missing":
                 del world["files"][t]
@@ -604,6 +630,18 @@ def execute(case):
                 v.probe("fault-not-reached")
                 return v
             v.planned(case["fault"]["kind"]); v.fired(case["fault"]["kind"])
+            if case["fault"]["kind"] == "blink":
+                # whatever the run makes of the absence (an error, or the candidate only): the file that came back
+                # holds its own text -- original or formatted --, never something else
+                t = case["fault"]["target"]
+                cur = core.read_rel(sc.root, t)
+                origt = core.file_bytes(world["files"][t])
+                if cur not in (origt, blink_fmt):
+                    v.add("C13:foreign-content-after-transient-absence", "%s was briefly absent when the run opened it and now holds %d bytes that are neither its original nor its formatted text; %s" % (t, len(cur or b""), det), file=t)
+                if core.abnormal(res):
+                    v.add("C13:abnormal|blink", det)
+                v.sample = {"lane": lane, "fault": case["fault"], "status": res.status()}
+                return v
             if case["fault"]["kind"] == "stat-error":
                 # the candidate cannot be examined: either an error, or the other candidate; never a write
                 # before the error is known
